@@ -700,11 +700,11 @@ Section NetProofs.
   Section NodeInd.
     Variable P : node K -> Prop.
     Hypothesis HM : forall m, P (NMod m).
-    Hypothesis HN : forall l, Forall P l -> P (NNet l).
+    Hypothesis HN : forall tm l, Forall P l -> P (NNet tm l).
     Fixpoint node_induction (n : node K) : P n :=
       match n with
       | NMod m => HM m
-      | NNet l => HN l ((fix go (l : list (node K)) : Forall P l :=
+      | NNet tm l => HN tm l ((fix go (l : list (node K)) : Forall P l :=
                            match l with
                            | [] => Forall_nil P
                            | x :: r => Forall_cons x (node_induction x) (go r)
@@ -719,17 +719,30 @@ Section NetProofs.
 
   Theorem fwd_node_flatten n : forall t : tenv K, fwd_node n t = fwd (flatten n) t.
   Proof.
-    induction n as [m|l IH] using node_induction; intros t; [reflexivity|].
-    simpl. revert t. induction IH as [|x r Hx _ IHr]; intros t; [reflexivity|].
-    rewrite fwd_app, <- Hx. apply IHr.
+    induction n as [m|tm l IH] using node_induction; intros t; [reflexivity|].
+    simpl. destruct (timed tm); unfold timefn;
+      (revert t; induction IH as [|x r Hx _ IHr]; intros t; [reflexivity|]; rewrite fwd_app, <- Hx; apply IHr).
   Qed.
 
   Theorem bwd_node_flatten n : forall c : cenv K, bwd_node dims n c = bwd dims (flatten n) c.
   Proof.
-    induction n as [m|l IH] using node_induction; intros c; [reflexivity|].
-    simpl. revert c. induction IH as [|x r Hx _ IHr]; intros c; [reflexivity|].
-    rewrite bwd_app, <- IHr. apply Hx.
+    induction n as [m|tm l IH] using node_induction; intros c; [reflexivity|].
+    simpl. destruct (timed tm); unfold timefn;
+      (revert c; induction IH as [|x r Hx _ IHr]; intros c; [reflexivity|]; rewrite bwd_app, <- IHr; apply Hx).
   Qed.
+
+  (* the print_timing options of a network tree do not influence what it computes *)
+  Lemma flatten_retime f (n : node K) : flatten (retime f n) = flatten n.
+  Proof.
+    induction n as [m|tm l IH] using node_induction; [reflexivity|].
+    simpl. induction IH as [|x r Hx _ IHr]; [reflexivity|]. rewrite Hx, IHr. reflexivity.
+  Qed.
+
+  Theorem retime_response f (n : node K) (t : tenv K) : fwd_node (retime f n) t = fwd_node n t.
+  Proof. rewrite !fwd_node_flatten, flatten_retime. reflexivity. Qed.
+
+  Theorem retime_sensitivity f (n : node K) (c : cenv K) : bwd_node dims (retime f n) c = bwd_node dims n c.
+  Proof. rewrite !bwd_node_flatten, flatten_retime. reflexivity. Qed.
 
   (* ------------------------------------------------------------------ block-matrix modules are adjoint pairs *)
   Lemma length_mv (M : mat K) x : length (mv M x) = length M.
@@ -959,11 +972,11 @@ Section NetProofs.
   Section StreeInd.
     Variable P : stree K -> Prop.
     Hypothesis HM : forall ins outs L, P (SMod ins outs L).
-    Hypothesis HN : forall l, Forall P l -> P (SNet l).
+    Hypothesis HN : forall tm l, Forall P l -> P (SNet tm l).
     Fixpoint stree_induction (s : stree K) : P s :=
       match s with
       | SMod ins outs L => HM ins outs L
-      | SNet l => HN l ((fix go (l : list (stree K)) : Forall P l :=
+      | SNet tm l => HN tm l ((fix go (l : list (stree K)) : Forall P l :=
                            match l with
                            | [] => Forall_nil P
                            | x :: r => Forall_cons x (stree_induction x) (go r)
@@ -973,7 +986,7 @@ Section NetProofs.
 
   Lemma specs_ok_wt s : specs_ok dims s = true -> wt_net dims (flatten (to_node s)).
   Proof.
-    induction s as [ins outs L|l IH] using stree_induction; intros Hok.
+    induction s as [ins outs L|tm l IH] using stree_induction; intros Hok.
     - simpl. constructor; [apply linmod_wt; exact Hok | constructor].
     - simpl in *. induction IH as [|x r Hx _ IHr]; [constructor|].
       apply andb_true_iff in Hok as [H1 H2].
